@@ -32,11 +32,11 @@ func runC05rules(cfg Config, r *Result) {
 			progs = append(progs, s)
 		}
 	}
-	for i := 0; i < cfg.N(120, 1200); i++ {
+	for i := 0; i < cfg.N(120, 300); i++ {
 		s, _, _ := GenProgram(cfg.Rng, fmtGenOpts[i%len(fmtGenOpts)])
 		progs = append(progs, s)
 	}
-	rtValid, rtMut := c05ReturnTreeMutants(cfg, cfg.N(120, 2500))
+	rtValid, rtMut := c05ReturnTreeMutants(cfg, cfg.N(120, 600))
 	for _, p := range rtValid {
 		run(p, "base:return-tree")
 	}
@@ -45,7 +45,7 @@ func runC05rules(cfg Config, r *Result) {
 			r.Dist("mutant-accepted-by-both:" + m.Rule)
 		}
 	}
-	budget := r.Evaluations + cfg.N(9000, 250000) // relative: this runs after C05's own oracles in the same Result
+	budget := r.Evaluations + cfg.N(9000, 40000) // relative: this runs after C05's own oracles in the same Result
 	for _, p := range progs {
 		if run(p, "base") != "both-accept" {
 			continue
